@@ -601,7 +601,8 @@ def sym(ctx, flavours):
             if M.OUT in d and M.IN in d and len(d[M.OUT]) == 1 and len(d[M.IN]) == 1:
                 pairs += 1
                 a, c = F.bodies[d[M.OUT][0]], F.bodies[d[M.IN][0]]
-                sa, sc = _shape(F, a), _shape(F, c)
+                from .rules_sib import coarse
+                sa, sc = sorted(coarse(F, a)), sorted(coarse(F, c))
                 ok = sa == sc
                 out.append(Obl('SYM', a['q'], a['span'], '%s ~ %s' % (a['name'], c['name']), ok, 'same event shape' if ok else 'shapes differ: %s vs %s' % (sorted(set(sa) - set(sc))[:3], sorted(set(sc) - set(sa))[:3])))
             else:
